@@ -88,38 +88,27 @@ def run(m, rep, tier):
         if not (rs & sweeps):
             s3.violation(e + ':sweep', 'a keyed operation never advances the incremental sweep: a pending rehash would never finish '
                          'by keyed operations alone', floc(m, mod.fn(e)), {})
-    # sweep call sites on keyed paths
-    keyed_fns = set()
+    # the work one keyed operation does: view with everything but the cleaner and the checked lookup inlined into the
+    # entry points, so that the sweep may be one function with a quota, several specialised ones, or open-coded
+    bmod = m.focus('hash', set(roles.names('checked')) | set(cleaners))
     for e in KEYED:
-        keyed_fns |= reach(g, e)
-    nsites = 0
-    for name in sorted(keyed_fns):
-        fn = mod.fn(name)
-        if fn is None or fn.decl:
+        bf = bmod.fn(e)
+        if bf is None or bf.decl:
             continue
-        for c in fn.all_insts():
-            if c.op == 'call' and c.callee in sweeps:
-                nsites += 1
-                q = const_int(c.o[1]) if len(c.o) > 1 else None
-                ncl = len([x for x in fn.all_insts() if x.op == 'call' and x.callee in cleaners])
-                site = '%s:sweep-call' % name
-                if q is None:
-                    s3.violation(site, 'the sweep is called with a quota that is not a constant: the work of one keyed operation is unbounded', c.loc(), {})
-                elif q < 1:
-                    s3.violation(site, 'the sweep is called with quota %d: a keyed operation does not advance the rehash' % q, c.loc(), {})
-                elif q + ncl > 3:
-                    s3.violation(site, 'quota %d plus %d directly cleaned bucket(s) exceeds three buckets per keyed operation' % (q, ncl), c.loc(), {})
-                else:
-                    s3.ok(site, 'constant quota %d + %d cleaner call site(s) <= 3' % (q, ncl), c.loc())
-    if nsites == 0:
-        s3.undecided('sweep-call', 'no call of the sweep found on keyed paths')
-    for sw in roles.sweep:
-        check_sweep_quota(m, sw, cleaners, s3)
+        check_keyed_budget(m, bmod, bf, cleaners, s3)
 
     # ---- S4 --------------------------------------------------------------------------
     s4 = rep.rule('S4', 'completion adopts the pending geometry; resize records the requested one', floor=2)
-    for sw in roles.sweep:
-        check_adopt(m, sw, s4)
+    hosts = []
+    for bf in bmod.defined():
+        if bf.name == 'cstl_hash_resize':
+            continue
+        if any(_is_sweep_step(bf, s) for s in bf.all_insts()):
+            hosts.append(bf)
+    if not hosts:
+        s4.undecided('completion', 'no function advancing the sweep found')
+    for bf in hosts:
+        check_adopt(m, bf, s4)
     f = fmod.fn('cstl_hash_resize')
     if f is not None and not f.decl:
         check_resize_records(m, f, s4)
@@ -191,68 +180,109 @@ def check_resize_decision(m, f, rule):
         rule.undecided('cstl_hash_resize', 'no comparison of the request with the table geometry found')
 
 
-def check_sweep_quota(m, sw, cleaners, rule):
-    pv = Prover(sw)
-    calls = [c for c in sw.all_insts() if c.op == 'call' and c.callee in cleaners]
-    site = '%s:quota-loop' % sw.name
-    if not calls:
-        rule.undecided(site, 'the sweep never calls the cleaner')
-        return
-    bad = []
-    quotas = []
+def _is_sweep_step(f, s):
+    if s.op != 'store' or fld(f, s) != 'bucket.rh.clean':
+        return False
+    base, step = unit_step(f, s.o[0])
+    return step == 1 and is_load_of(f, base, 'bucket.rh.clean')
+
+
+def _in_cycle(f, block, avoid=()):
+    return any(block in f.reachable_from(s, avoid=avoid) for s in block.succ if s not in avoid)
+
+
+def _leaf_bound(leaf, facts):
+    """an upper bound of a quota's initial value: the constant itself, or a constant it is known not to exceed"""
+    c = const_int(leaf)
+    if c is not None:
+        return c
+    best = None
+    for (op, x, y) in (facts or ()):
+        if x != leaf or not (isinstance(y, str) and y.startswith('#')):
+            continue
+        try:
+            k = int(y[1:])
+        except ValueError:
+            continue
+        b = k if op == 'ule' else (k - 1 if op == 'ult' else None)
+        if b is not None and (best is None or b < best):
+            best = b
+    return best
+
+
+def _call_weight(f, pv, c):
+    """how often the call c can run in one execution of f: 1 outside any cycle; inside a cycle the largest initial
+    value of a quota (a variable known > 0 at the call, stepped down by one in every iteration that makes the call,
+    and whose loop is the one the call sits in); None when no such quota is found"""
     from ..facts import phi_leaves
-    for ni in sw.all_insts():
+    if not _in_cycle(f, c.block):
+        return 1
+    best = None
+    for ni in f.all_insts():
         if ni.op != 'phi':
             continue
-        decs = [sw.get(o) for o in ni.o if isinstance(o, str) and sw.get(o) is not None and unit_step(sw, o) == (ni.ref, -1)]
-        inits = [o for o in ni.o if not (isinstance(o, str) and sw.get(o) is not None and unit_step(sw, o) == (ni.ref, -1))]
+        decs = [f.get(o) for o in ni.o if isinstance(o, str) and f.get(o) is not None and unit_step(f, o) == (ni.ref, -1)]
+        inits = [o for o in ni.o if not (isinstance(o, str) and f.get(o) is not None and unit_step(f, o) == (ni.ref, -1))]
         if not decs or not inits:
             continue
-        # the quota starts as the parameter, or as something no larger than it (a trip count min(remaining, quota))
-        ok_init = True
+        if ni.block is not c.block and _in_cycle(f, c.block, avoid=(ni.block,)):
+            continue            # the call can repeat without passing the quota's loop head
+        if not (pv.prove_at(('ult', '#0', ni.ref), c) or pv.prove_at(('ne', ni.ref, '#0'), c)):
+            continue
+        if not all(f.dominates(c, d) for d in decs):
+            continue
+        bound = 0
         for o in inits:
-            for leaf, lb, lf in phi_leaves(sw, pv.fc, o):
-                if leaf == '$1' or const_int(leaf) == 0:
-                    continue
-                fs = set(lf or ())
-                if not any(op in ('ule', 'ult') and x == leaf and y == '$1' for (op, x, y) in fs):
-                    ok_init = False
-        if ok_init:
-            quotas.append((ni, decs))
-    for c in calls:
-        ok = False
-        # the quota variable (starts as the parameter, stepped down by one) is positive at the call on every way into it,
-        # and is stepped once per cleaning
-        for ni, decs in quotas:
-            if (pv.prove_at(('ult', '#0', ni.ref), c) or pv.prove_at(('ne', ni.ref, '#0'), c)) and all(sw.dominates(c, d) for d in decs):
-                ok = True
-        for (op, x, y) in (pv.facts_at(c) if not ok else ()):
-            n = None
-            if op == 'ult' and const_int(x) == 0:
-                n = y
-            elif op == 'ne' and const_int(y) == 0:
-                n = x
-            if n is None:
-                continue
-            ni = sw.get(n)
-            if ni is None or ni.op != 'phi' or '$1' not in ni.o:
-                continue
-            decs = [sw.get(o) for o in ni.o if o != '$1']
-            if all(d is not None and unit_step(sw, d.ref) == (n, -1) for d in decs):
-                # the decrement happens in every iteration that cleans
-                if all(sw.dominates(c, d) for d in decs):
-                    ok = True
-        if not ok:
-            bad.append('the cleaner call at %s is not inside a loop guarded by `quota > 0` with one decrement per cleaning' % c.loc())
-    if bad:
-        rule.violation(site, '; '.join(bad), floc(m, sw), {})
+            for leaf, lb, lf in phi_leaves(f, pv.fc, o):
+                b = _leaf_bound(leaf, lf)
+                if b is None:
+                    bound = None
+                    break
+                bound = max(bound, b)
+            if bound is None:
+                break
+        if bound is not None and (best is None or bound < best):
+            best = bound
+    return best
+
+
+def check_keyed_budget(m, mod, f, cleaners, rule, depth=0):
+    """S3 budget of one keyed entry point: total weight of the cleaner call sites it executes (private helpers inlined)"""
+    pv = Prover(f)
+    site = '%s:budget' % f.name
+    total = 0
+    swept = 0
+    parts = []
+    for c in f.all_insts():
+        if c.op != 'call' or not c.callee or c.is_intrinsic():
+            continue
+        if c.callee in cleaners:
+            w = _call_weight(f, pv, c)
+            if w is None:
+                rule.violation(site, 'the cleaner call at %s repeats without a constant quota (a variable known > 0 at the call, '
+                               'decremented once per cleaning, starting from a constant): the rehash work of one keyed operation '
+                               'is not bounded by a constant' % c.loc(), c.loc(), {})
+                return
+            total += w
+            parts.append('%s x%d' % (c.loc(), w))
+            # is the cleaned bucket the one under the sweep index?
+            arg = [strip_bitcasts(f, o) for o in c.o if isinstance(o, str)]
+            for g, idx in at_subscripts(f):
+                if g.ref in arg and is_load_of(f, idx, 'bucket.rh.clean'):
+                    swept += w
+    if swept < 1:
+        rule.violation(site, 'a keyed operation cleans no bucket under the sweep index (quota 0 or no sweep step): a pending rehash '
+                       'would never finish by keyed operations alone', floc(m, f), {})
+    elif total > 3:
+        rule.violation(site, 'one keyed operation can clean %d buckets (%s): more than three per insert/find/erase'
+                       % (total, ', '.join(parts)), floc(m, f), {})
     else:
-        rule.ok(site, '%d cleaner call(s), each under quota > 0 with a decrement per iteration' % len(calls), floc(m, sw))
+        rule.ok(site, 'at most %d bucket(s) cleaned per operation (%s), %d under the sweep index' % (total, ', '.join(parts), swept), floc(m, f))
 
 
 def check_adopt(m, sw, rule):
     site = '%s:completion' % sw.name
-    nulls = [s for s in sw.all_insts() if s.op == 'store' and fld(sw, s) == 'bucket.rh.hash' and const_int(s.o[0]) == 0]
+    nulls = [s for s in sw.all_insts() if s.op == 'store' and fld(sw, s) == 'bucket.rh.hash' and (const_int(s.o[0]) == 0 or s.o[0] == 'null')]
     if not nulls:
         rule.violation(site, 'the sweep never marks the rehash as complete (rh.hash := NULL)', floc(m, sw), {})
         return
